@@ -34,7 +34,8 @@ func MuxPatterns(mux *http.ServeMux) []string {
 type HandleSite struct {
 	Pattern string
 	Func    string
-	Wrapped bool // handler argument is the result of (*Server).Authenticate
+	Wrapped bool // handler argument is syntactically the result of (*Server).Authenticate
+	Bare    bool // handler argument is syntactically an endpoint constructor / plain function: certainly not wrapped
 }
 
 // HandleCallSites is answered by the engine from the SSA of /repo. Natively it marks the
